@@ -39,11 +39,12 @@ const (
 	kInter
 	kUnrelated
 	kRootAndUnrelated
-	kLeaf // only meaningful for the self-signed single-certificate chain
+	kLeaf     // only meaningful for the self-signed single-certificate chain
+	kEmptyDir // the store directory exists but holds no file: it cannot be loaded
 	nKinds
 )
 
-var kindNames = []string{"absent", "root", "intermediate", "unrelated", "root+unrelated", "leaf"}
+var kindNames = []string{"absent", "root", "intermediate", "unrelated", "root+unrelated", "leaf", "empty-directory"}
 
 type caseT struct {
 	Placement []int `json:"placement"` // per store reference: content kind
@@ -54,6 +55,12 @@ type caseT struct {
 	// Prior > 0: the same verifier instance first verified another signature (scheme/format combination
 	// Prior-1 of the same chain) - the judged verification must behave as on a fresh verifier.
 	Prior int `json:"prior"`
+	// Store 1: instead of the on-disk trust store a caller-supplied X509TrustStore whose answers are
+	// sub-slices of ONE backing array (in store-reference order, each with spare capacity reaching into the
+	// next store's certificates) - legal for an implementation, fatal for a caller that appends to what it got.
+	// Prior 5 (with Store 1): the same verifier first verified the signature under the OTHER statement
+	// (reference reg.io/team), which lists the complementary stores.
+	Store int `json:"store"`
 }
 
 func (c caseT) String() string {
@@ -69,7 +76,14 @@ func (c caseT) String() string {
 	}
 	prior := "fresh verifier"
 	if c.Prior > 0 {
-		prior = fmt.Sprintf("same verifier verified a %s/%s signature before", []string{"x509", "signingAuthority"}[(c.Prior-1)/2], []string{"jws", "cose"}[(c.Prior-1)%2])
+		if c.Prior == 5 {
+			prior = "same verifier verified the signature under the other statement before"
+		} else {
+			prior = fmt.Sprintf("same verifier verified a %s/%s signature before", []string{"x509", "signingAuthority"}[(c.Prior-1)/2], []string{"jws", "cose"}[(c.Prior-1)%2])
+		}
+	}
+	if c.Store == 1 {
+		prior += ", caller-supplied store answering with sub-slices of one array"
 	}
 	return fmt.Sprintf("stores{%s} list[%s] scheme=%s format=%s shape=%d (%s)", strings.Join(pl, ","), strings.Join(l, ","), []string{"x509", "signingAuthority"}[c.Scheme], []string{"jws", "cose"}[c.Format], c.Shape, prior)
 }
@@ -117,10 +131,16 @@ func (w *world) configDir(pl []int, shape int) string {
 	}
 	for i, k := range pl {
 		certs := w.certsOf(k, shape)
+		tn := strings.SplitN(storeRefs[i], ":", 2)
+		if k == kEmptyDir {
+			if err := os.MkdirAll(filepath.Join(d, "truststore", "x509", tn[0], tn[1]), 0o755); err != nil {
+				panic(err)
+			}
+			continue
+		}
 		if len(certs) == 0 {
 			continue
 		}
-		tn := strings.SplitN(storeRefs[i], ":", 2)
 		sd := filepath.Join(d, "truststore", "x509", tn[0], tn[1])
 		if err := os.MkdirAll(sd, 0o755); err != nil {
 			panic(err)
@@ -137,9 +157,33 @@ func (w *world) configDir(pl []int, shape int) string {
 
 var ctx = context.Background()
 
+// sharedArrayStore answers with sub-slices of one backing array.
+type sharedArrayStore struct {
+	all  []*x509.Certificate
+	span map[string][2]int
+}
+
+func (s *sharedArrayStore) GetCertificates(ctx context.Context, t truststore.Type, name string) ([]*x509.Certificate, error) {
+	sp, ok := s.span[string(t)+":"+name]
+	if !ok || sp[0] == sp[1] {
+		return nil, truststore.TrustStoreError{Msg: "mock: the trust store does not exist or is empty"}
+	}
+	return s.all[sp[0]:sp[1]], nil // capacity reaches to the end of the shared array
+}
+
 func (w *world) run(r *hx.Run, c caseT) {
 	cfg := w.configDir(c.Placement, c.Shape)
-	ls := &mocks.LoggingStore{Inner: truststore.NewX509TrustStore(dir.NewSysFS(cfg))}
+	var inner truststore.X509TrustStore = truststore.NewX509TrustStore(dir.NewSysFS(cfg))
+	if c.Store == 1 {
+		sa := &sharedArrayStore{span: map[string][2]int{}}
+		for i, k := range c.Placement {
+			from := len(sa.all)
+			sa.all = append(sa.all, w.certsOf(k, c.Shape)...)
+			sa.span[storeRefs[i]] = [2]int{from, len(sa.all)}
+		}
+		inner = sa
+	}
+	ls := &mocks.LoggingStore{Inner: inner}
 	var list, others []string
 	inList := map[int]bool{}
 	for _, i := range c.List {
@@ -175,7 +219,11 @@ func (w *world) run(r *hx.Run, c caseT) {
 		return
 	}
 	env := w.envs[fmt.Sprintf("%d/%d/%d", c.Shape, c.Scheme, c.Format)]
-	if c.Prior > 0 {
+	if c.Prior == 5 {
+		r.Eval(1)
+		_, _ = v.Verify(ctx, w.desc, env, notation.VerifierVerifyOptions{ArtifactReference: "reg.io/team@" + w.desc.Digest.String(), SignatureMediaType: forge.Formats[c.Format]})
+		ls.Calls = nil
+	} else if c.Prior > 0 {
 		ps, pf := (c.Prior-1)/2, (c.Prior-1)%2
 		r.Eval(1)
 		_, _ = v.Verify(ctx, w.desc, w.envs[fmt.Sprintf("%d/%d/%d", c.Shape, ps, pf)], notation.VerifierVerifyOptions{ArtifactReference: "reg.io/team/app@" + w.desc.Digest.String(), SignatureMediaType: forge.Formats[pf]})
@@ -186,6 +234,9 @@ func (w *world) run(r *hx.Run, c caseT) {
 	bad := func(key, what string) {
 		if c.Prior > 0 {
 			key += ":after-earlier-verification-on-same-verifier"
+		}
+		if c.Store == 1 {
+			key += ":shared-array-store"
 		}
 		r.Violation(key, what+" | "+c.String(), c)
 	}
@@ -303,6 +354,106 @@ func (w *world) run(r *hx.Run, c caseT) {
 	}
 }
 
+// aliasFamily: a caller-supplied trust store that answers with sub-slices of ONE backing array (every store
+// holds one certificate; the slice of a store has spare capacity reaching into the following stores). One
+// verifier first verifies under a statement listing an ordered pair of stores, then under a statement listing a
+// single store: the second verdict must follow the content of that single store only. All root-holder
+// positions x all ordered pairs x all single stores x both schemes for either call x both array orders.
+type aliasCase struct {
+	Kind    string `json:"kind"`
+	Holder  int    `json:"root_holder"`
+	PriorA  int    `json:"prior_first_store"`
+	PriorB  int    `json:"prior_second_store"`
+	PriorSc int    `json:"prior_scheme"`
+	Judged  int    `json:"judged_store"`
+	Scheme  int    `json:"judged_scheme"`
+	Rev     bool   `json:"array_reversed"`
+}
+
+func (w *world) aliasFamily(r *hx.Run) {
+	unrelated := make([]*x509.Certificate, len(storeRefs))
+	for i := range unrelated {
+		unrelated[i] = pki.Make(pki.Tmpl{Subject: pki.Name(fmt.Sprintf("alias unrelated %d", i)), CA: true, PathLen: -1}, pki.Key(pki.EC256, 120+i), nil).Cert
+	}
+	var cases []aliasCase
+	for h := range storeRefs {
+		for a := range storeRefs {
+			for b := range storeRefs {
+				if a == b {
+					continue
+				}
+				for ps := 0; ps < 2; ps++ {
+					for j := range storeRefs {
+						for sc := 0; sc < 2; sc++ {
+							for _, rev := range []bool{false, true} {
+								if !r.Thorough() && (h+a+b+j+ps+sc)%2 == 1 && rev {
+									continue
+								}
+								cases = append(cases, aliasCase{"alias", h, a, b, ps, j, sc, rev})
+							}
+						}
+					}
+				}
+			}
+		}
+	}
+	r.Extra["alias_cases"] = len(cases)
+	onlyAuth := trustpolicy.SignatureVerification{VerificationLevel: "strict", Override: map[trustpolicy.ValidationType]trustpolicy.ValidationAction{
+		trustpolicy.TypeAuthenticTimestamp: trustpolicy.ActionLog, trustpolicy.TypeExpiry: trustpolicy.ActionLog, trustpolicy.TypeRevocation: trustpolicy.ActionSkip}}
+	r.Parallel(len(cases), func(i int) {
+		c := cases[i]
+		sa := &sharedArrayStore{span: map[string][2]int{}}
+		order := []int{0, 1, 2, 3, 4, 5}
+		if c.Rev {
+			order = []int{5, 4, 3, 2, 1, 0}
+		}
+		for _, k := range order {
+			cert := unrelated[k]
+			if k == c.Holder {
+				cert = w.chain3.Root().Cert
+			}
+			sa.span[storeRefs[k]] = [2]int{len(sa.all), len(sa.all) + 1}
+			sa.all = append(sa.all, cert)
+		}
+		doc := &trustpolicy.OCIDocument{Version: "1.0", TrustPolicies: []trustpolicy.OCITrustPolicy{
+			{Name: "pair", SignatureVerification: onlyAuth, TrustStores: []string{storeRefs[c.PriorA], storeRefs[c.PriorB]}, TrustedIdentities: []string{"*"}, RegistryScopes: []string{"reg.io/team"}},
+			{Name: "single", SignatureVerification: onlyAuth, TrustStores: []string{storeRefs[c.Judged]}, TrustedIdentities: []string{"*"}, RegistryScopes: []string{"reg.io/team/app"}},
+		}}
+		v, err := verifier.NewVerifierWithOptions(sa, verifier.VerifierOptions{OCITrustPolicy: doc, RevocationCodeSigningValidator: mocks.AllOK()})
+		if err != nil {
+			r.Infra("alias verifier: %v", err)
+			return
+		}
+		r.Eval(2)
+		_, _ = v.Verify(ctx, w.desc, w.envs[fmt.Sprintf("0/%d/0", c.PriorSc)], notation.VerifierVerifyOptions{ArtifactReference: "reg.io/team@" + w.desc.Digest.String(), SignatureMediaType: forge.JWS})
+		_, verr := v.Verify(ctx, w.desc, w.envs[fmt.Sprintf("0/%d/0", c.Scheme)], notation.VerifierVerifyOptions{ArtifactReference: "reg.io/team/app@" + w.desc.Digest.String(), SignatureMediaType: forge.JWS})
+		req := []string{"ca", "signingAuthority"}[c.Scheme]
+		want := strings.HasPrefix(storeRefs[c.Judged], req+":") && c.Judged == c.Holder
+		what := fmt.Sprintf("root in %s; first verification (%s) under [%s,%s], then (%s) under [%s]; array reversed=%v: err=%v", storeRefs[c.Holder], []string{"x509", "signingAuthority"}[c.PriorSc], storeRefs[c.PriorA], storeRefs[c.PriorB], []string{"x509", "signingAuthority"}[c.Scheme], storeRefs[c.Judged], c.Rev, verr)
+		switch {
+		case verr == nil && !want:
+			r.Violation("alias/verification-succeeded-without-anchor-in-the-listed-store:shared-array-store", what, c)
+		case verr != nil && want:
+			r.Violation("alias/verification-failed-although-anchored:shared-array-store", what, c)
+		default:
+			r.Outcome(fmt.Sprintf("alias:anchored=%v", want))
+			r.Nontrivial(fmt.Sprintf("alias|%+v", c))
+		}
+		// the store itself must still hold what it held (the caller must not write into what it was handed)
+		for _, k := range []int{0, 1, 2, 3, 4, 5} {
+			sp := sa.span[storeRefs[k]]
+			wantCert := unrelated[k]
+			if k == c.Holder {
+				wantCert = w.chain3.Root().Cert
+			}
+			if sa.all[sp[0]] != wantCert {
+				r.Violation("alias/trust-store-content-overwritten-by-the-verifier:shared-array-store", fmt.Sprintf("store %s no longer holds its certificate | %s", storeRefs[k], what), c)
+				break
+			}
+		}
+	}, nil)
+}
+
 func main() {
 	r := hx.New("C03")
 	r.Rule = "every placement of {root, intermediate, unrelated CA, root+unrelated, leaf} into at most 2 (quick: 1) of the six named stores x every store list of length 1..3 (quick: 1..2) over the six references x scheme x format x chain shape; the other stores are listed by a second statement and a wildcard statement; one real verifier.Verify over the real on-disk trust store per case; non-trivial = cases whose list names at least one store of the required type"
@@ -350,9 +501,15 @@ func main() {
 	lrec(nil)
 	var cases []caseT
 	for shape := 0; shape < 2; shape++ {
-		kinds := []int{kRoot, kInter, kUnrelated, kRootAndUnrelated}
+		kinds := []int{kRoot, kInter, kUnrelated, kRootAndUnrelated, kEmptyDir}
 		if shape == 1 {
-			kinds = []int{kRoot, kUnrelated, kRootAndUnrelated, kLeaf} // root == leaf for the self-signed chain; kept for symmetry
+			kinds = []int{kRoot, kUnrelated, kRootAndUnrelated, kLeaf, kEmptyDir} // root == leaf for the self-signed chain; kept for symmetry
+		}
+		if !r.Thorough() {
+			kinds = append(kinds[:3:3], kEmptyDir) // quick: without the root+unrelated content kind
+			if shape == 1 {
+				kinds = []int{kRoot, kUnrelated, kLeaf, kEmptyDir}
+			}
 		}
 		var placements [][]int
 		var prec func(i int, cur []int, used int)
@@ -380,8 +537,12 @@ func main() {
 							for p := 1; p <= 4; p++ {
 								cases = append(cases, caseT{Placement: pl, List: l, Scheme: s, Format: f, Shape: shape, Prior: p})
 							}
-						} else {
+						} else if f == 0 {
 							cases = append(cases, caseT{Placement: pl, List: l, Scheme: s, Format: f, Shape: shape, Prior: 1 + (1-s)*2 + f})
+						}
+						// caller-supplied store with shared backing array: fresh, and after a verification under the other statement
+						if f == 0 || r.Thorough() {
+							cases = append(cases, caseT{Placement: pl, List: l, Scheme: s, Format: f, Shape: shape, Store: 1}, caseT{Placement: pl, List: l, Scheme: s, Format: f, Shape: shape, Store: 1, Prior: 5})
 						}
 					}
 				}
@@ -397,6 +558,7 @@ func main() {
 			r.Sample(cases[i].String())
 		}
 	}, nil)
+	w.aliasFamily(r)
 	os.RemoveAll(w.root)
 	r.Finish()
 }
